@@ -92,12 +92,62 @@ package refopts
 //@ assumed func NewRefGroupBuilder
 //@   trust A-CALLEE-UNVERIFIED
 //@   modifies everything
-//@ assumed func (*RefGroupBuilder).AddRefopts
-//@   trust A-CALLEE-UNVERIFIED
-//@   modifies everything
-//@ assumed func (*RefGroupBuilder).Finish
-//@   trust A-CALLEE-UNVERIFIED
-//@   modifies everything
 //@ assumed func NewShowRefGrouper
 //@   trust A-CALLEE-UNVERIFIED
 //@   pure
+
+// ---------------------------------------------------------------- ref_group_builder.go (C06, C07, C15)
+
+// "split at the last dot"
+//@ func splitKey
+//@   pure
+//@   call 0 LastIndexByte as li
+//@   ensures li == -1 ==> len(result0) == 0 && same(result1, key)
+//@   ensures li >= 0 ==> same(result0, key[:li]) && same(result1, key[li+1:])
+
+//@ func parentName
+//@   pure
+//@   call 0 LastIndexByte as li
+//@   ensures li == -1 ==> len(result) == 0
+//@   ensures li >= 0 ==> same(result, symbol[:li]) && len(result) < len(symbol)
+
+// Finish: with no reference option at all the top-level filter becomes All
+// (no ROOT given) or None (only ROOTs); an explicit filter is kept (C06).
+//@ func (*refGrouper).fillInTree
+//@   modifies fieldmem(sizes.RefGroup.Name), fieldmem(refGroup.otherRefGroup), refGrouper.refGroups
+
+//@ func (*RefGroupBuilder).Finish
+//@   modifies rgb.topLevelGroup.filter, fieldmem(sizes.RefGroup.Name), fieldmem(refGroup.otherRefGroup)
+//@   ensures old(rgb.topLevelGroup.filter) == nil && defaultAll ==> forall r string :: apply(rgb.topLevelGroup.filter, r)
+//@   ensures old(rgb.topLevelGroup.filter) == nil && !defaultAll ==> forall r string :: !apply(rgb.topLevelGroup.filter, r)
+//@   ensures old(rgb.topLevelGroup.filter) != nil ==> rgb.topLevelGroup.filter == old(rgb.topLevelGroup.filter)
+
+// The option table of C06: --branches / --tags / --remotes / --notes are
+// prefix rules refs/heads, refs/tags, refs/remotes, refs/notes; --stash is the
+// exact name refs/stash (a regexp); the --no- forms exclude; --include,
+// --exclude take a flexible argument, --include-regexp / --exclude-regexp a
+// regexp. It is stated as the precondition of the flag registration calls, so
+// each registration in AddRefopts is checked against it; the ghost counter
+// shows that all 17 options are registered.
+//@ spec fvIs(v Iface, inc bool, pat string, re bool) bool = dyntype(v, "*refopts.filterValue") && isInc(unbox(v, "*refopts.filterValue").combiner) == inc && (dyntype(unbox(v, "*refopts.filterValue").combiner, "git.include") || dyntype(unbox(v, "*refopts.filterValue").combiner, "git.exclude")) && unbox(v, "*refopts.filterValue").pattern == pat && unbox(v, "*refopts.filterValue").regexp == re
+//@ spec optionTable(v Iface, name string) bool = (name == "include" ==> fvIs(v, true, "", false)) && (name == "include-regexp" ==> fvIs(v, true, "", true)) && (name == "exclude" ==> fvIs(v, false, "", false)) && (name == "exclude-regexp" ==> fvIs(v, false, "", true)) && (name == "branches" ==> fvIs(v, true, "refs/heads", false)) && (name == "no-branches" ==> fvIs(v, false, "refs/heads", false)) && (name == "tags" ==> fvIs(v, true, "refs/tags", false)) && (name == "no-tags" ==> fvIs(v, false, "refs/tags", false)) && (name == "remotes" ==> fvIs(v, true, "refs/remotes", false)) && (name == "no-remotes" ==> fvIs(v, false, "refs/remotes", false)) && (name == "notes" ==> fvIs(v, true, "refs/notes", false)) && (name == "no-notes" ==> fvIs(v, false, "refs/notes", false)) && (name == "stash" ==> fvIs(v, true, "refs/stash", true)) && (name == "no-stash" ==> fvIs(v, false, "refs/stash", true)) && (name == "refgroup" ==> dyntype(v, "*refopts.filterGroupValue"))
+//@ spec knownOption(name string) bool = name == "include" || name == "include-regexp" || name == "exclude" || name == "exclude-regexp" || name == "branches" || name == "no-branches" || name == "tags" || name == "no-tags" || name == "remotes" || name == "no-remotes" || name == "notes" || name == "no-notes" || name == "stash" || name == "no-stash" || name == "refgroup"
+
+//@ assumed func github.com/spf13/pflag:(*FlagSet).VarPF
+//@   trust A-PFLAG
+//@   requires knownOption(name) && optionTable(value, name)
+//@   pure
+//@   ensures result != nil && fresh(result)
+//@ assumed func github.com/spf13/pflag:(*FlagSet).Var
+//@   trust A-PFLAG
+//@   requires knownOption(name) && optionTable(value, name)
+//@   pure
+
+//@ func (*RefGroupBuilder).AddRefopts
+//@   modifies nothing
+//@   ghost nReg counts FlagSet).Var
+//@   ensures nReg == 15
+
+//@ property C06: (*RefGroupBuilder).Finish (*RefGroupBuilder).AddRefopts
+//@ property C07: parentName
+//@ property C15: splitKey
